@@ -468,6 +468,154 @@ theorem svLoop_acceptAll_ge :
 
 end compare
 
+/-! ### `AcceptAll` against any similarity test, whatever the two pop orders -/
+
+section anyorder
+variable {cf : Config α} {sim : List Nat → List Nat → Except ErrKind Bool} {term : KspTerm}
+  {k source target : Nat} {fwd rev : SState α}
+
+/-- `svLoop_invariant` with the knowledge that the popped vertex is an entry of the queue the loop
+started from -/
+theorem svLoop_invariant_mem (P : List (List (Branch α)) → Prop) (Q : Nat → Prop)
+    (hstep : ∀ sol v this, P sol → Q v → svCandidate cf source target fwd rev v = .ok this →
+      routeContainsLoop cf this = .ok false → rejectedBy sim this sol = .ok false →
+      P (sol ++ [this])) :
+    ∀ (pops : List Nat) (queue : List (Nat × α)) (sol : List (List (Branch α))) (it : Nat)
+      (res : List (List (Branch α)) × Nat), (∀ p ∈ queue, Q p.1) → P sol →
+      svLoop cf sim term k source target fwd rev pops queue sol it = .ok res → P res.1 := by
+  intro pops
+  induction pops with
+  | nil =>
+    intro queue sol it res _ hP h
+    obtain ⟨rfl, _⟩ := svLoop_nil_ok h
+    exact hP
+  | cons v rest ih =>
+    intro queue sol it res hq hP h
+    rcases svLoop_cons_ok h with ⟨_, rfl⟩ | ⟨_, _, rfl⟩ | ⟨_, _, hpop, this, hasLoop, rej, hc, hl, hr, h'⟩
+    · exact hP
+    · exact hP
+    · obtain ⟨p, hp, hpv⟩ := SearchTree.popOk_mem hpop
+      have hQv : Q v := hpv ▸ hq p hp
+      refine ih _ _ _ res (fun p hp => hq p (List.mem_filter.1 hp).1) ?_ h'
+      cases hasLoop <;> cases rej <;> simp <;> try exact hP
+      exact hstep sol v this hP hQv hc hl hr
+
+/-- every route of the solution the loop was entered with is still there at the end -/
+theorem svLoop_subset :
+    ∀ (pops : List Nat) (queue : List (Nat × α)) (sol : List (List (Branch α))) (it : Nat)
+      (res : List (List (Branch α)) × Nat),
+      svLoop cf sim term k source target fwd rev pops queue sol it = .ok res →
+      ∀ x ∈ sol, x ∈ res.1 := by
+  intro pops queue sol it res h
+  exact svLoop_invariant (cf := cf) (sim := sim) (term := term) (k := k) (source := source)
+    (target := target) (fwd := fwd) (rev := rev) (fun s => ∀ x ∈ sol, x ∈ s)
+    (fun s v this hs _ _ _ x hx => List.mem_append_left _ (hs x hx))
+    pops queue sol it res (fun x hx => hx) h
+
+/-- **`AcceptAll` drains the queue**: when its run does not end on the criterion, every queue entry
+was popped, so every loop-free candidate of a queue vertex is in the final solution up to edge ids -/
+theorem svLoop_acceptAll_complete :
+    ∀ (pops : List Nat) (queue : List (Nat × α)) (sol : List (List (Branch α))) (it : Nat)
+      (res : List (List (Branch α)) × Nat),
+      svLoop cf simAcceptAll term k source target fwd rev pops queue sol it = .ok res →
+      term.terminate k res.1.length = false →
+      ∀ p ∈ queue, ∀ this, svCandidate cf source target fwd rev p.1 = .ok this →
+        routeContainsLoop cf this = .ok false →
+        ∃ s ∈ res.1, s.map (·.edge) = this.map (·.edge) := by
+  intro pops
+  induction pops with
+  | nil =>
+    intro queue sol it res h hterm p hp
+    obtain ⟨rfl, hstop⟩ := svLoop_nil_ok h
+    rcases hstop with hstop | hstop
+    · rw [hstop] at hterm; cases hterm
+    · rw [List.isEmpty_iff] at hstop; subst hstop; simp at hp
+  | cons v rest ih =>
+    intro queue sol it res h hterm p hp this hcand hloop
+    rcases svLoop_cons_ok h with ⟨ht, rfl⟩ | ⟨_, hq, rfl⟩ | ⟨_, _, _, this', hasLoop, rej, hc, hl, hr, h'⟩
+    · rw [ht] at hterm; cases hterm
+    · rw [List.isEmpty_iff] at hq; subst hq; simp at hp
+    · by_cases hpv : p.1 = v
+      · -- this entry is the one popped now
+        rw [hpv, hc] at hcand; cases hcand
+        rw [hl] at hloop; cases hloop
+        rw [rejectedBy_acceptAll] at hr; cases hr
+        have hsub := svLoop_subset _ _ _ _ _ h'
+        by_cases hany : (sol.any fun s => sameIds this s) = true
+        · obtain ⟨s, hs, hid⟩ := List.any_eq_true.1 hany
+          refine ⟨s, hsub s ?_, ((sameIds_iff this s).1 hid).symm⟩
+          split
+          · exact List.mem_append_left _ hs
+          · exact hs
+        · have hany' : (sol.any fun s => sameIds this s) = false := by simpa using hany
+          refine ⟨this, hsub this ?_, rfl⟩
+          simp [hany']
+      · have hmem : p ∈ queue.filter (fun q => !(q.1 == v)) :=
+          List.mem_filter.2 ⟨hp, by simpa using hpv⟩
+        exact ih _ _ _ res h' hterm p hmem this hcand hloop
+
+end anyorder
+
+/-- **`AcceptAll` returns at least as many routes, whatever the two pop orders**: from the same
+queue and initial route, a run under `AcceptAll` (replaying any accepted pop sequence) ends with at
+least as many routes after `take(k)` as a run under any similarity test (replaying any other) -/
+theorem svLoop_acceptAll_ge_any_order {cf : Config α}
+    {sim : List Nat → List Nat → Except ErrKind Bool} {term : KspTerm} {k source target : Nat}
+    {fwd rev : SState α} {popsA popsT : List Nat} {queue : List (Nat × α)} {tsp : List (Branch α)}
+    {resA resT : List (List (Branch α)) × Nat}
+    (hA : svLoop cf simAcceptAll term k source target fwd rev popsA queue [tsp] 0 = .ok resA)
+    (hT : svLoop cf sim term k source target fwd rev popsT queue [tsp] 0 = .ok resT) :
+    (resT.1.take k).length ≤ (resA.1.take k).length := by
+  cases hterm : term.terminate k resA.1.length with
+  | true =>
+    have := terminate_length hterm
+    simp only [List.length_take]
+    omega
+  | false =>
+    apply take_length_mono
+    -- every route of the other run is, up to ids, a route of the AcceptAll run
+    have hcomplete := svLoop_acceptAll_complete _ _ _ _ _ hA hterm
+    have hsubT : ∀ r ∈ resT.1, ∃ s ∈ resA.1, s.map (·.edge) = r.map (·.edge) := by
+      refine svLoop_invariant_mem (cf := cf) (sim := sim) (term := term) (k := k) (source := source)
+        (target := target) (fwd := fwd) (rev := rev)
+        (fun sol => ∀ r ∈ sol, ∃ s ∈ resA.1, s.map (·.edge) = r.map (·.edge))
+        (fun v => ∃ p ∈ queue, p.1 = v) ?_ popsT queue [tsp] 0 resT (fun p hp => ⟨p, hp, rfl⟩) ?_ hT
+      · intro sol v this hs ⟨p, hp, hpv⟩ hc hl _ r hr
+        rcases List.mem_append.1 hr with hm | hm
+        · exact hs r hm
+        · simp only [List.mem_singleton] at hm
+          subst hm
+          exact hcomplete p hp r (hpv ▸ hc) hl
+      · intro r hr
+        simp only [List.mem_singleton] at hr
+        subst hr
+        exact ⟨r, svLoop_subset _ _ _ _ _ hA r (by simp), rfl⟩
+    -- the other run's routes have pairwise distinct ids
+    have hndT : (resT.1.map (fun r => r.map (·.edge))).Nodup := by
+      have hp := svLoop_invariant (cf := cf) (sim := sim) (term := term) (k := k) (source := source)
+        (target := target) (fwd := fwd) (rev := rev)
+        (fun s => s.Pairwise (fun earlier later => later.map (·.edge) ≠ earlier.map (·.edge)))
+        (fun s v this hs _ _ hrej => by
+          rw [List.pairwise_append]
+          refine ⟨hs, List.pairwise_singleton _ _, ?_⟩
+          intro a ha b hb
+          simp only [List.mem_singleton] at hb
+          subst hb
+          intro heq
+          have := ((rejectedBy_false_iff sim b s).1 hrej a ha).2
+          rw [(sameIds_iff b a).2 heq] at this
+          cases this)
+        popsT queue [tsp] 0 resT (List.pairwise_singleton _ _) hT
+      rw [List.Nodup, List.pairwise_map]
+      exact hp.imp (fun h => fun heq => h heq.symm)
+    have hsub : resT.1.map (fun r => r.map (·.edge)) ⊆ resA.1.map (fun r => r.map (·.edge)) := by
+      intro ids hids
+      obtain ⟨r, hr, rfl⟩ := List.mem_map.1 hids
+      obtain ⟨s, hs, hse⟩ := hsubT r hr
+      exact List.mem_map.2 ⟨s, hs, hse⟩
+    have := (hndT.subperm hsub).length_le
+    simpa using this
+
 /-! ### what a candidate route is -/
 
 /-- contiguous walk `u ⇝ v` in *graph orientation* over the edge list: every edge id is in range,
